@@ -26,6 +26,20 @@ CHECKS = {
         note="Component level drives one leaf at a time (plus owner power state), not all pairs.",
         design_ref="DESIGN.md §4 C02",
     ),
+    "C08": dict(
+        technique="exhaustive product of route tables x destinations on real RouteTable objects vs reference longest-prefix match; explicit-state BFS over 11 real topologies with reachability reference model, addressee/TTL/termination monitors; scripted ICMP identifiers",
+        text="Every route table of up to 3 (thorough 4) routes over nested prefixes x metrics x insertion orders x default-route variants "
+             "is queried for 18 boundary destinations and compared with an integer LPM reference (lowest metric on ties, default last). "
+             "BFS over a switched LAN, chains of 1-3 routers with static and default routes (/24 and /30 links, decoy routes), a firewall "
+             "chain, two routers sharing a switch, a wireless pair, a default-route loop and a host-as-next-hop table: pings between all "
+             "ordered host pairs, to router, unused and foreign addresses, DNS look-ups, interface/port/power toggles and ticks from cold "
+             "ARP caches. Oracles: every exchange succeeds iff an independent reachability model (power, interfaces, links, routes, ACLs, "
+             "both directions) says so; a unicast payload reaches software only on the owner of its destination address; every hop lowers "
+             "TTL and exhausted TTL is dropped; every event terminates (frame-nesting and transmission budget); ICMP identifier answers "
+             "{0,1,65535}^2 scripted.",
+        note="DNS over TCP is the service exchange; alternative-path (triangle) topologies are not covered.",
+        design_ref="DESIGN.md §4 C08",
+    ),
     "C09": dict(
         technique="C01 exploration (BFS + deviation-bounded) with an independent observation decoder compared leaf by leaf",
         text="On GEN members (scan-gated and true health, NMNE, monitored traffic, file-access counts, sessions, routed and firewall) and "
@@ -140,6 +154,20 @@ CHECKS = {
              "existing components is executed in a forked snapshot: never unreachable, never raises, documented status.",
         note="Requests whose parameters (not path keys) are missing are classed malformed and not executed; handler-reaching raw paths are executed only when formed by an action class.",
         design_ref="DESIGN.md §4 C05",
+    ),
+    "C06": dict(
+        technique="exhaustive product of (topology x block mechanism x placement x cold/warm) configurations, each explored as the complete tree of attack sequences in forked snapshots; differential victim state vs idle run; per-frame deny monitor",
+        text="Switched, routed and firewall (external/internal/DMZ, every ordered zone pair) networks with an attacker carrying every red "
+             "application (data-manipulation-bot, ransomware-script, dos-bot, C2 beacon/server, nmap, database client, FTP, terminal, "
+             "browser) and a victim carrying database, FTP, web, terminal, users and files. Every blocking mechanism (deny rule shapes "
+             "any-any / exact src / exact dst / wildcard / implicit deny on each list on the path; interface or port disabled at either "
+             "end or on the device; link absent or removed; victim or device powered off) applied cold or after a warm-up with ARP, "
+             "database, terminal and C2 sessions established; then every attack sequence up to depth 2 (thorough 3) over 15 events. "
+             "Oracle 1: the victim's deep state (all software fields, sessions, connections, ARP, files, NIC counters, NMNE) equals the "
+             "idle reference after every event and after settling. Oracle 2: a class-level monitor checks that a frame denied by a "
+             "router/firewall list is never sent on, never handed to its session manager/software, and teaches the node nothing.",
+        note="The attacker acts through requests on its own node; one block mechanism at a time; ARP is exempt from router ACLs by the code's convention.",
+        design_ref="DESIGN.md §4 C06",
     ),
     "C07": dict(
         technique="exhaustive product (rule configurations x packets) on real AccessControlList vs reference; BFS over add/remove via API, request tree, action classes",
